@@ -371,7 +371,7 @@ theorem readRecords_step {H : Nat × Nat → Prop} {opq : Nat → Rd Bytes} {buf
   · have hop := hup hu
     rw [if_neg (by intro hc; exact hc.1 hop)]
     simp only [Option.isSome_none, Bool.false_eq_true, ↓reduceIte]
-    rw [if_neg (by intro hc; rcases hc.2 with h1 | h1 | h1; exact hr.rtype.2.1 h1; exact hs1 h1; exact hs2 h1)]
+    rw [if_neg (by intro hc; rcases hc.2 with h1 | h1 | h1; exact hr.rtype.2 h1; exact hs1 h1; exact hs2 h1)]
     cases isAdd with
     | false => simpa using hrest
     | true =>
@@ -383,11 +383,11 @@ theorem readRecords_step {H : Nat × Nat → Prop} {opq : Nat → Rd Bytes} {buf
           cases hdd : r.rdata <;> rw [hdd] at hu h1 <;> simp [RData.isUpdate, RData.proved] at hu h1
       rw [hd]
       simp only
-      rw [if_neg hr.rtype.2.1]
+      rw [if_neg hr.rtype.2]
       exact hrest
   · rw [if_neg (by intro hc; exact hu hc.2.2)]
     simp only [Option.isSome_none, Bool.false_eq_true, ↓reduceIte]
-    rw [if_neg (by intro hc; rcases hc.2 with h1 | h1 | h1; exact hr.rtype.2.1 h1; exact hs1 h1; exact hs2 h1)]
+    rw [if_neg (by intro hc; rcases hc.2 with h1 | h1 | h1; exact hr.rtype.2 h1; exact hs1 h1; exact hs2 h1)]
     cases isAdd with
     | false => simpa using hrest
     | true =>
